@@ -46,3 +46,23 @@ fn("engine/default.py::DefaultDialect.reset_isolation_level", cls="DialectObj", 
    # "no state from a previous checkout": the level goes back to the engine-wide one (the one applied on connect), else the default
    ensures=[f"dbapi_conn.iso_level is {ENGINE_LEVEL}"],
    may_raise={"Exception": "True"}, modifies=["dbapi_conn.iso_level"], harness="pool_reset.reset_isolation_level")
+
+# ---- execution_options(isolation_level=..., <dialect characteristic>=...): every call that sets characteristics schedules
+# their reset on the connection record (run at check-in: _ConnectionRecord.checkin pops and calls every finalizer, C26 proof)
+cls("CRecX", fields={"finalize_callback": "deque"})
+cls("FairyX", fields={"dbapi_connection": "v", "_connection_record": "CRecX"})
+cls("ConnX", fields={"connection": "FairyX"})
+cls("DialectX", fields={"connection_characteristics": "dict", "_reset_characteristics": "v"})
+fn("engine/default.py::DefaultDialect._set_connection_characteristics", cls="DialectX", props=["C24"], returns="none",
+   types={"connection": "ConnX", "characteristics": "dict", "characteristic_values": "list", "trans_objs": "list",
+          "elems:characteristic_values": "tupleval", "characteristic": "v", "value": "v", "_": "v", "dbapi_connection": "v"},
+   callees={"connection.in_transaction": "havoc:bool", "characteristic.set_connection_characteristic": "noop",
+            "functools.partial": "pure:partial", "exc.InvalidRequestError": "havoc:v"},
+   ensures=["len(connection.connection._connection_record.finalize_callback) == old(len(connection.connection._connection_record.finalize_callback)) + 1",
+            "connection.connection._connection_record.finalize_callback[-1] is pure_partial(self._reset_characteristics, characteristics)",
+            # earlier finalizers stay scheduled, in order
+            "contents(connection.connection._connection_record.finalize_callback)[:-1] == old(contents(connection.connection._connection_record.finalize_callback))"],
+   may_raise={"Exception": "True", "InvalidRequestError": "True"},
+   # nothing is scheduled twice or dropped when the call is refused
+   exc_ensures={"Exception": ["contents(connection.connection._connection_record.finalize_callback) == old(contents(connection.connection._connection_record.finalize_callback))"]},
+   modifies=["contents(connection.connection._connection_record.finalize_callback)"])
